@@ -111,7 +111,7 @@ MOS.append(MO("O3.3/rollback_target", "append_internal_with_rollback / append_ba
               rollback_args, functions=[("persistence.rs", "append_internal_with_rollback"), ("persistence.rs", "append_batch_internal_with_rollback")]))
 
 FK = [("hnsw_backend.rs", "normalize_in_place_if_needed"), ("hnsw_index.rs", "add_vector"), ("hnsw_backend.rs", "insert")]
-ROWS = [("euclidean_d1", "quick"), ("euclidean_d2", "quick"), ("cosine_d1", "quick"), ("cosine_d2", "quick"), ("inner_product_d2", "quick"),
+ROWS = [("euclidean_d1", "thorough"), ("euclidean_d2", "quick"), ("cosine_d1", "thorough"), ("cosine_d2", "quick"), ("inner_product_d2", "thorough"),
         ("euclidean_d4", "thorough"), ("cosine_d3", "thorough")]
 HARNESSES = [
     KH("O3.1/" + r, "c03_o1_preflight_" + r, "pre-log validation of HnswBackend::insert accepts only vectors the index accepts (%s)" % r, src="hnsw_backend.rs", functions=FK,
@@ -139,9 +139,12 @@ PERSIST_HARNESSES = [
        src="persistence.rs", functions=FPS, bounds="one good frame; second append whose sync_all fails", assumptions=PA3, timeout=1500, replay="solver-only", tier="thorough"),
     KH("O3.4/rollback_fails", "c03_o4_rollback_failure_surfaces", "append_internal_with_rollback: when the rollback's own set_len or seek fails the call still returns Err (never acknowledged)",
        src="persistence.rs", functions=FPS, bounds="write cut after 10 bytes; set_len or seek of the rollback fails (symbolic choice)", assumptions=PA3, timeout=1500, replay="solver-only", tier="thorough"),
-    KH("O3.4/batch", "c03_o4_batch_all_or_nothing", "append_batch_internal_with_rollback: a batch whose write is cut or whose fsync fails leaves no frame of the batch in the log (the fsync case keeps a complete frame on disk "
-       "until the rollback truncates it)", src="persistence.rs", functions=FPS + [("persistence.rs", "append_batch_internal_with_rollback"), ("persistence.rs", "append_batch_internal")],
-       bounds="one good frame; a one-entry batch whose write is cut after 7 bytes or whose fsync fails (symbolic choice)", assumptions=PA3, timeout=1500, replay="solver-only", tier="thorough"),
+    KH("O3.4/batch_fsync", "c03_o4_batch_fsync_fails", "append_batch_internal_with_rollback: frames written, fsync fails => Err and no frame of the batch stays in the log (a complete frame is on disk until the rollback truncates it)",
+       src="persistence.rs", functions=FPS + [("persistence.rs", "append_batch_internal_with_rollback"), ("persistence.rs", "append_batch_internal")],
+       bounds="one good frame; a one-entry batch whose fsync fails", assumptions=PA3, timeout=2400, replay="solver-only", tier="thorough"),
+    KH("O3.4/batch_short", "c03_o4_batch_short_write", "append_batch_internal_with_rollback: the batch write is cut after 7 bytes => Err and full restoration",
+       src="persistence.rs", functions=FPS + [("persistence.rs", "append_batch_internal_with_rollback"), ("persistence.rs", "append_batch_internal")],
+       bounds="one good frame; a one-entry batch cut after 7 bytes", assumptions=PA3, timeout=2400, replay="solver-only", tier="thorough"),
     KH("O3.4/retry", "c03_o4_retry_after_rollback", "after a rolled-back short write a fault-free retry yields exactly two well-formed durable frames",
        src="persistence.rs", functions=FPS, bounds="write cut after 10 bytes, then a clean retry", assumptions=PA3, timeout=1500, replay="solver-only", tier="thorough"),
 ]
